@@ -79,7 +79,92 @@ def selftest(n):
         assert sorted(p) == list(range(len(p)))
     for m in range(min(n, 7) + 1):
         assert list(lex_perms_desc(m)) == list(lex_perms(m))[::-1]
+    for m in range(0, 7):          # the integer-only reference against the enumerated order
+        for i, p in enumerate(lex_perms(m)):
+            assert rank_by_counting(p) == i and lehmer_unrank(i, m) == p
     return True
+
+
+# ---- integer-only Lehmer code reference (long permutations; no enumeration, no floats) --------
+
+def rank_by_counting(p):
+    """Number of permutations of the same length that are lexicographically smaller: for every
+    position i, (number of later entries smaller than p[i]) * (n-1-i)!."""
+    n = len(p)
+    r = 0
+    for i in range(n):
+        c = 0
+        for j in range(i + 1, n):
+            if p[j] < p[i]:
+                c += 1
+        r += c * fact(n - 1 - i)
+    return r
+
+
+def lehmer_unrank(r, n):
+    """The permutation of length n with exactly r lexicographically smaller ones (integers only:
+    digit i of the factorial number system picks the digit-th smallest unused value)."""
+    assert 0 <= r < fact(n)
+    rest = list(range(n))
+    out = []
+    for i in range(n):
+        f = fact(n - 1 - i)
+        d = r // f
+        r = r - d * f
+        out.append(rest.pop(d))
+    return tuple(out)
+
+
+def scale_ranks(n):
+    """Sorted ranks (within length n) at which a decoder's arithmetic is most exposed:
+    0, n!-1; for every suffix length m = 2..n and every q = 1..m-1 the block boundary
+    q*(m-1)! - 1, q*(m-1)!, q*(m-1)! + 1 of the suffix, behind an increasing prefix (leading
+    digits 0) and behind a decreasing prefix (leading digits maximal) of length n-m; and
+    2^e - 1, 2^e, 2^e + 1 for e = 52..70 where below n!."""
+    F = [fact(i) for i in range(n + 1)]
+    out = {0, F[n] - 1}
+    for m in range(2, n + 1):
+        dec_prefix = sum((n - 1 - i) * F[n - 1 - i] for i in range(n - m))
+        for q in range(1, m):
+            for base in (0, dec_prefix):
+                for d in (-1, 0, 1):
+                    r = base + q * F[m - 1] + d
+                    if 0 <= r < F[n]:
+                        out.add(r)
+    for e in range(52, 71):
+        for d in (-1, 0, 1):
+            if 0 <= 2 ** e + d < F[n]:
+                out.add(2 ** e + d)
+    return sorted(out)
+
+
+def scale_perms(n):
+    """Structured permutations of length n with a cheap reference: identity, reverse, one adjacent
+    transposition at every position, rotations, i -> k*i mod n, layered (reversed blocks of 3),
+    and `first value q then decreasing rest` behind increasing prefixes of length 0..3."""
+    ident = tuple(range(n))
+    out = [ident, ident[::-1]]
+    for i in range(n - 1):
+        t = list(ident)
+        t[i], t[i + 1] = t[i + 1], t[i]
+        out.append(tuple(t))
+    for k in (1, 2, n - 1):
+        if 0 < k < n:
+            out.append(ident[k:] + ident[:k])
+    for k in (2, 3, 5, 7):
+        if n > k and all(n % d or k % d for d in range(2, k + 1)):
+            out.append(tuple((k * i) % n for i in range(n)))
+    out.append(tuple(v for b in range(0, n, 3) for v in reversed(range(b, min(n, b + 3)))))
+    for pre in range(0, min(4, n - 1)):
+        rest = list(range(pre, n))
+        for q in rest:
+            out.append(tuple(range(pre)) + (q,) + tuple(v for v in reversed(rest) if v != q))
+    seen, uniq = set(), []
+    for p in out:
+        if p not in seen:
+            seen.add(p)
+            uniq.append(p)
+    return uniq
 
 
 # ---- notations ------------------------------------------------------------------------------
